@@ -284,7 +284,8 @@ Theorem C05_transform_refines_partial : forall ct h0 l a c d k sp s f,
   let ah := mkah [] true true AMissing false None None [] (Some f) in
   match run_helper ct l (HTransform a) h s with
   | (Ok r, s') => r = VRef l /\
-                  spec_helper ct h0 (absv (heap s) (VRef l)) (STransform a) ah = SOk (absv (heap s') (VRef l))
+                  spec_helper ct h0 (absv (heap s) (VRef l)) (STransform a) ah = SOk (absv (heap s') (VRef l)) /\
+                  (forall i, i <> l -> nth_error (heap s') i = nth_error (heap s) i)
   | (Err e, s') => spec_helper ct h0 (absv (heap s) (VRef l)) (STransform a) ah = SErr e /\ heap s' = heap s
   end.
 Proof.
@@ -310,7 +311,8 @@ Theorem C05_reset_refines_partial : forall ct h0 l a c d k sp s,
   let ah := mkah [] true true AMissing false None None [] None in
   match run_helper ct l (HReset a) h s with
   | (Ok r, s') => r = VRef l /\
-                  spec_helper ct h0 (absv (heap s) (VRef l)) (SReset a) ah = SOk (absv (heap s') (VRef l))
+                  spec_helper ct h0 (absv (heap s) (VRef l)) (SReset a) ah = SOk (absv (heap s') (VRef l)) /\
+                  (forall i, i <> l -> nth_error (heap s') i = nth_error (heap s) i)
   | (Err e, s') => spec_helper ct h0 (absv (heap s) (VRef l)) (SReset a) ah = SErr e /\ heap s' = heap s
   end.
 Proof.
